@@ -405,6 +405,11 @@ fn judge_pair_ci_tf(name: &str, ctx: &str, a: &Option<Obs>, b: &Option<Obs>, tol
 fn gen_obs(r: &mut Rng, n: usize, exact: bool) -> Vec<Ob> {
     let scale = *r.pick(&[1.0, 3.0, 0.01, 250.0]);
     let off = *r.pick(&[0.0, 1.0, -4.0, 20.0]);
+    // one data set in eight is measured in a tiny unit (nanoseconds expressed in seconds: 2^-30), one in sixteen in a huge
+    // one (2^30): exact powers of two, so conditioning is unchanged, but every partial sum of squares of the first kind
+    // lies below the machine epsilon of the element type (a register that is small is not an empty register)
+    let unit = match r.below(16) { 0 | 1 => 2f64.powi(-30), 2 => 2f64.powi(30), _ => 1.0 };
+    let (scale, off) = (scale * unit, off * unit);
     (0..n)
         .map(|_| {
             if exact {
